@@ -351,7 +351,7 @@ def build_streams(ctx):
         "(68^4 = 21,381,376 strings of length 4, in 68 batches) + RFC 4648 encodings of random strings and mutations of them; fromHex of all "
         f"1-byte{'' if quick else ' and 2-byte'} strings + random; {nint} boundary (0, +-1, min, max, 10^k+-1, 2^k+-1) and random integers over the four widths, "
         "numeric texts with white space / sign / leading zeros / junk / out-of-range magnitudes. "
-        "distinct_nontrivial = distinct (op kind, observation) pairs")
+        "distinct_nontrivial = distinct output streams among the histories (one per batch line; single calls in groups of 64)")
     ctx.cov["exhaustive"] = True
     ctx.cov["exhaustive_scope"] = ("code points 0..0x10FFFF (all); byte strings of length <= 3 for fromString/isValid (all 16,843,009); "
                                    "base64 strings of <= 4 symbols over 68 symbols (all 21,700,501); bytes 0..255 for length() and fromHex")
